@@ -68,16 +68,26 @@ impl LogWriter for SyslogWriter {
         if record.level() > self.max_log_level {
             return Ok(());
         }
+        // We take the buffer out of the mutex and do not hold the lock while formatting:
+        // formatting can produce log calls (from Display implementations),
+        // which would block forever on the lock.
+        let mut buf = std::mem::take(
+            &mut self
+                .m_conn_buf
+                .lock()
+                .map_err(|_| crate::util::io_err("SyslogWriter is poisoned"))?
+                .buf,
+        );
+        buf.clear();
+        self.line_writer
+            .write_syslog_entry(&mut Cursor::new(&mut buf), now, record)?;
+
         let mut conn_buf_guard = self
             .m_conn_buf
             .lock()
             .map_err(|_| crate::util::io_err("SyslogWriter is poisoned"))?;
         let cb = &mut *conn_buf_guard;
-        cb.buf.clear();
-        let mut buffer = Cursor::new(&mut cb.buf);
-
-        self.line_writer
-            .write_syslog_entry(&mut buffer, now, record)?;
+        cb.buf = buf;
 
         #[cfg(test)]
         {
